@@ -257,14 +257,17 @@ func (s *seqCounters) add(seqNr uint32) {
 		// We can insert in the middle and keep all previous counters
 		for i := s._nrCounters - 1; i >= 1; i-- {
 			if seqNr > s.counters[i-1].seqNr {
+				// seqNr belongs between counters i-1 and i
 				if s._nrCounters < s.windowSize {
 					// Shift counters i to s._nrCounters-1 to i+1 to s._nrCounters
-					copy(s.counters[i+1:s._nrCounters], s.counters[i:s._nrCounters-1])
+					copy(s.counters[i+1:s._nrCounters+1], s.counters[i:s._nrCounters])
+					s.counters[i] = seqCounter{seqNr: seqNr, count: 1}
+					s._nrCounters++
 				} else {
-					// Shift counters 1 to i-1 to 0 to i-2
-					copy(s.counters[1:i], s.counters[:i-1])
+					// Full: the oldest counter goes. Shift counters 1 to i-1 to 0 to i-2
+					copy(s.counters[:i-1], s.counters[1:i])
+					s.counters[i-1] = seqCounter{seqNr: seqNr, count: 1}
 				}
-				s.counters[i-1] = seqCounter{seqNr: seqNr, count: 1}
 				return
 			}
 		}
